@@ -71,7 +71,7 @@ func (tc *twoConn) waitSeen(n int, d time.Duration) bool {
 
 func runTwo(c TwoCase) *ev.Failure {
 	if pre := leaked(2 * time.Second); pre != "" {
-		return ev.Failf("harness-leak-before", "a library goroutine from an earlier case is still alive:\n%s", pre)
+		return ev.Failf("goroutine-leak-after-earlier-case", "a goroutine the library started for a connection of an EARLIER case is still alive (that connection had terminated):\n%s", pre)
 	}
 	stop := make(chan struct{})
 	defer close(stop)
@@ -273,7 +273,7 @@ type NRCase struct {
 
 func runNoReader(c NRCase) *ev.Failure {
 	if pre := leaked(2 * time.Second); pre != "" {
-		return ev.Failf("harness-leak-before", "a library goroutine from an earlier case is still alive:\n%s", pre)
+		return ev.Failf("goroutine-leak-after-earlier-case", "a goroutine the library started for a connection of an EARLIER case is still alive (that connection had terminated):\n%s", pre)
 	}
 	mux := diam.NewServeMux()
 	var mu sync.Mutex
